@@ -3,7 +3,9 @@
 C19: (1) Coq obligations Props/Properties_C19.v; (2) correspondence: harness/run_geo.cc (real library) vs
 ocaml/geodriver.ml (model extracted from coq/Geo) on the inputs of gen/geogen.py -- integer results must be
 identical, floating-point results are compared with the model's exact rational value under an explicit
-rounding bound; (3) impl-side oracle lines "!O C19" (defining formulas evaluated in the harness).
+rounding bound; (3) impl-side oracle lines "!O C19" (defining formulas evaluated in the harness); (4) floating-point
+leg: Props/Properties_C19_float.v (theorems about the Flocq binary64 model coq/Geo/FloatModel.v) and the BIT-EXACT
+comparison of run_geo --fvec / --fmesh with that model evaluated inside Coq by vm_compute (float_leg below).
 
 C20: (1) translate/constwrites.py regenerates coq/Gen/ConstWrites.v from the clang AST of the current
 sources; (2) Props/Properties_C20.v (schedule theorem + `Forall clean const_methods` by computation);
@@ -268,6 +270,219 @@ def compare_meshes(ctx, scripts, impl_out, model_out, stats):
                 if key not in mr: div(name, "printed by the impl side only", key, ir[key], None)
     return divs
 
+# ------------------------------------------------------------------------------------ floating-point leg (bit exact)
+# The library's float / double results (bit patterns printed by run_geo --fvec / --fmesh) against the Flocq model of
+# coq/Geo/FloatModel.v evaluated INSIDE Coq (vm_compute on files written under build/run/fleg/): the generated file
+# carries inputs and the library's values, Coq answers with the number of values it compared and the cases that differ
+# (Geo/FloatDriver.v: fcheck / fmesh_check).  NaN results compare as "is NaN" (-1 on both sides).
+
+FLEG = os.path.join(RUN, "fleg")
+FL_OPS = {"U": ["max", "min", "neg", "sqrnorm", "l1_norm", "mean", "max_abs", "min_abs", "l8_norm", "mean_abs", "norm", "normalize_cond", "normalized"],
+          "B": ["eq", "neq", "lt", "minimize", "maximize", "min2", "max2", "minimized", "maximized", "add", "sub", "mul", "dot", "div"],
+          "S": ["vectorize", "smul", "smul_left", "sdiv"]}
+FL_KIND = {"U": "KU", "B": "KB", "S": "KS"}
+FL_MESH_TAGS = {"vec_e": 10, "vec_he": 11, "len_e": 12, "len_he": 13, "bary_e": 14, "fverts": 20, "bary_f": 21, "ndeg": 22, "normal": 23, "cverts": 30, "bary_c": 31}
+FL_SHARD = 240           # vector cases per coqc run (about 75 cases/s under vm_compute: ~4 s per shard incl. start-up)
+FL_PAR = 6               # coqc processes in parallel
+
+def fl_tok(t):
+    """token printed by run_geo -> canonical integer (bit pattern; every NaN = -1)"""
+    if t[0] == "x":
+        b = int(t[1:], 16); return -1 if ((b >> 52) & 0x7ff) == 0x7ff and (b & ((1 << 52) - 1)) else b
+    if t[0] == "y":
+        b = int(t[1:], 16); return -1 if ((b >> 23) & 0xff) == 0xff and (b & ((1 << 23) - 1)) else b
+    return int(t)
+
+def fl_ops_of(ty, d, kind, mask):
+    if kind == "C": return {"d": ["conv_f"], "f": ["conv_d"], "i": ["conv_f", "conv_d"]}[ty]
+    return FL_OPS[kind] + (["homogenized"] if (kind == "U" and d == 4) else []) + (["cross"] if (kind == "B" and d == 3) else [])
+
+def zl(l): return "[" + ";".join(str(x) for x in l) + "]"
+def zll(ll): return "[" + ";".join(zl(l) for l in ll) + "]"
+
+def fl_term(line, impl, ln):
+    """-> (Coq term of type fany * list (list Z), ops, number of values)"""
+    t = line.split()
+    ty, d, kind, mask = t[0], int(t[1]), t[2], t[3]
+    vals = [int(x[1:], 16) if x[0] in "xy" else int(x) for x in t[4:]]          # inputs: the raw bit patterns (NaN payloads included)
+    ops = fl_ops_of(ty, d, kind, mask)
+    want = [[fl_tok(x) for x in impl.get((ln, op), [])] for op in ops]
+    if kind == "C": head = {"d": "Ad2f", "f": "Af2d", "i": "Ai2fd"}[ty] + " " + zl(vals)
+    else: head = "%s %s %s" % ("A64" if ty == "d" else "A32", FL_KIND[kind], zl(vals))
+    return "(%s, %s)" % (head, zll(want)), ops, sum(len(w) for w in want)
+
+FL_HEAD = ("From Coq Require Import List ZArith.\nFrom OVM Require Import Kernel.State Kernel.Ops Geo.FloatDriver.\nImport ListNotations.\n"
+           "Set Printing Depth 100000000.\nSet Printing Width 100000.\n")
+
+def fl_coq(name, body, timeout=900):
+    """write build/run/fleg/<name>.v, run coqc, return the parsed value printed by its single Eval (or an error string)"""
+    import ast
+    path = os.path.join(FLEG, name + ".v")
+    open(path, "w").write(FL_HEAD + body)
+    rc, out, err = fw.sh(["coqc", "-Q", fw.COQ, "OVM", name + ".v"], cwd=FLEG, timeout=timeout)
+    if rc != 0: return "coqc rc=%d: %s" % (rc, (out + err)[-1500:])
+    m = re.search(r"^\s*=\s*(.*?)\n\s*:\s", out, flags=re.S | re.M)
+    if not m: return "no value printed: " + out[-500:]
+    txt = m.group(1).replace(";", ",").replace("Some ", "").replace("%Z", "").replace("%nat", "")
+    try: return ast.literal_eval(txt)
+    except Exception as ex: return "unparsable value (%s): %s" % (ex, txt[:500])
+
+def float_leg(ctx, impl):
+    import geogen
+    from concurrent.futures import ThreadPoolExecutor
+    global FLEG
+    FLEG = os.path.join(RUN, "fleg-%s-%d" % (ctx.tier, ctx.seed))      # one scratch directory per tier and seed (runs may overlap)
+    os.makedirs(FLEG, exist_ok=True)
+    for f in os.listdir(FLEG):
+        try: os.unlink(os.path.join(FLEG, f))
+        except OSError: pass
+    with fw.Lock("coq"):
+        fw.ensure_makefile()
+        rc, out, err = fw.sh(["make", "-k", "-j16", "Geo/FloatDriver.vo"], cwd=fw.COQ, timeout=1500)
+    if rc != 0:
+        ctx.broken.append({"kind": "model-build", "name": "Geo/FloatDriver.v", "detail": (out + err)[-2000:]}); return
+    st = {"vector_cases": 0, "vector_values_compared": 0, "vector_divergences": 0, "by_type_kind": {}, "nan_results": 0, "inf_results": 0, "subnormal_results": 0,
+          "mesh_scripts": 0, "mesh_records_compared": 0, "mesh_divergences": 0, "coqc_runs": 0, "coqc_seconds": 0.0}
+    import time as _t
+    # ---- vectors
+    cases = geogen.float_cases(ctx.seed, ctx.quick())
+    vpath = os.path.join(RUN, "C19-fvec-%d.txt" % ctx.seed)
+    open(vpath, "w").write("\n".join(cases) + "\n")
+    rc1, o1, e1 = fw.sh([impl, "--fvec", vpath], timeout=1500, env=ENV)
+    if rc1 != 0 or "done oracle_fails" not in o1[-200:]:
+        last = [l for l in o1.split("\n") if l and l[0].isdigit()][-1:] or ["0"]
+        ln = int(last[0].split()[0])
+        ctx.violations.append({"kind": "input", "oracle": "sanitizer", "what": "run_geo --fvec aborted (rc=%d): %s" % (rc1, e1[-1500:]),
+                               "input": cases[max(0, ln - 1):ln + 1], "replay_cmd": "build/bin/san/run_geo --fvec " + vpath})
+    implv = {}
+    for l in o1.split("\n"):
+        if not l or not l[0].isdigit(): continue
+        p = l.split(" ")
+        implv[(int(p[0]), p[1])] = p[2:]
+        for t in p[2:]:
+            if t[0] == "x":
+                b = int(t[1:], 16); e = (b >> 52) & 0x7ff; m = b & ((1 << 52) - 1)
+                if e == 0x7ff: st["nan_results" if m else "inf_results"] += 1
+                elif e == 0 and m: st["subnormal_results"] += 1
+    shards = []
+    for k in range(0, len(cases), FL_SHARD):
+        terms, meta, nvals = [], [], 0
+        for i in range(k, min(k + FL_SHARD, len(cases))):
+            term, ops, nv = fl_term(cases[i], implv, i + 1)
+            terms.append(term); meta.append((i, ops)); nvals += nv
+            key = cases[i][0] + cases[i].split()[2]
+            st["by_type_kind"][key] = st["by_type_kind"].get(key, 0) + 1
+        shards.append(("fvec_%d" % (k // FL_SHARD), "Open Scope Z_scope.\nEval vm_compute in (fcheck [\n%s]).\n" % ";\n".join(terms), meta, nvals))
+    t0 = _t.time()
+    with ThreadPoolExecutor(FL_PAR) as ex:
+        results = list(ex.map(lambda sh: fl_coq(sh[0], sh[1]), shards))
+    st["coqc_runs"] += len(shards); st["coqc_seconds"] += round(_t.time() - t0, 1)
+    divs = []
+    for (name, body, meta, nvals), res in zip(shards, results):
+        if isinstance(res, str):
+            ctx.broken.append({"kind": "correspondence", "name": "float leg: Coq evaluation of %s failed" % name, "detail": {"error": res, "file": os.path.join(FLEG, name + ".v")}}); continue
+        n, bad = res
+        st["vector_cases"] += len(meta); st["vector_values_compared"] += n
+        if n != nvals and not bad:
+            ctx.broken.append({"kind": "correspondence", "name": "float leg: %s compared %d values, the library printed %d" % (name, n, nvals), "detail": {"file": os.path.join(FLEG, name + ".v")}})
+        for idx, got in bad:
+            i, ops = meta[idx]
+            for op, g in zip(ops, got):
+                w = implv.get((i + 1, op))
+                if w is None or [fl_tok(x) for x in w] != list(g):
+                    st["vector_divergences"] += 1
+                    divs.append({"input": cases[i], "line": i + 1, "op": op, "impl_says": " ".join(w) if w else None,
+                                 "model_says": " ".join(("nan" if x == -1 else ("%x" % x)) for x in g), "why": "bit patterns differ (NaN compares as is-NaN)",
+                                 "replay_cmd": "build/bin/san/run_geo --fvec %s ; coqc -Q coq OVM %s" % (vpath, os.path.join(FLEG, name + ".v"))})
+    seen = set()
+    for dv in divs:
+        if dv["op"] in seen or len(seen) >= 4: continue
+        seen.add(dv["op"])
+        ctx.broken.append({"kind": "correspondence", "name": "VectorT<%s> %s: library bit pattern vs Flocq model (Geo/FloatModel.v)" % ("double" if dv["input"][0] == "d" else "float", dv["op"]), "detail": dv})
+    ctx.cov["evaluations"] += st["vector_cases"]
+    ctx.cov["distinct_nontrivial"] += len({c for c in cases if not all(v in ("x0000000000000000", "y00000000", "0") for v in c.split()[4:])})
+    # ---- meshes
+    scripts = geogen.float_mesh_scripts(ctx.seed, ctx.quick())
+    mpath = os.path.join(RUN, "C19-fmesh-%d.scripts" % ctx.seed)
+    write_scripts(mpath, scripts)
+    rc1, m1, e1 = fw.sh([impl, "--fmesh", mpath], timeout=1500, env=ENV)
+    blocks = split_blocks(m1)
+    jobs = []
+    for name, lines in scripts.items():
+        il = blocks.get(name)
+        if il is None or any("!! CRASH" in l for l in il):
+            ctx.broken.append({"kind": "correspondence", "name": "float leg: run_geo --fmesh crashed / printed nothing for a script", "detail": {"script": name, "script_lines": lines, "out": (il or [])[-5:]}}); continue
+        cmds = []
+        for l in lines:
+            t = l.split()
+            if t[0] == "Q": cmds.append("FQ")
+            elif t[0] == "PosB": cmds.append("FPos %s %d %d %d" % (t[1], int(t[2][1:], 16), int(t[3][1:], 16), int(t[4][1:], 16)) if int(t[1]) >= 0 else "FPos 1000000 0 0 0")
+            elif t[0] == "Pos": cmds.append("FPos %s %d %d %d" % ((t[1],) + tuple(fl_tok(geogen.dbits(float(int(x)))) for x in t[2:5])) if int(t[1]) >= 0 else "FPos 1000000 0 0 0")
+            else: cmds.append("FOp (%s)" % coq_op(t))
+        want = []
+        for l in il:
+            if l.startswith("=="):
+                if l.endswith(" Q"): want.append((1, 0, []))
+                else:
+                    r = l.split(" -> ")[1].split()
+                    want.append((0, -1 if r[0] == "Rejected" else (-2 if r[1] == "-" else int(r[1])), []))
+            elif l[0] == "!" : continue
+            else:
+                p = l.split(" ")
+                if p[0] in FL_MESH_TAGS: want.append((FL_MESH_TAGS[p[0]], int(p[1]), [fl_tok(x) for x in p[2:]]))
+        body = ("Open Scope nat_scope.\nEval vm_compute in (fmesh_check [\n%s]\n [%s]).\n"
+                % (";\n".join(cmds), ";\n".join("((%d)%%Z, (%d)%%Z, [%s])" % (a, b, ";".join("(%d)%%Z" % x for x in c)) for a, b, c in want)))
+        jobs.append((name, body, want, il))
+    t0 = _t.time()
+    with ThreadPoolExecutor(FL_PAR) as ex:
+        results = list(ex.map(lambda j: fl_coq("fmesh_" + j[0].replace("-", "_"), j[1]), jobs))
+    st["coqc_runs"] += len(jobs); st["coqc_seconds"] += round(_t.time() - t0, 1)
+    nbroken = 0
+    for (name, body, want, il), res in zip(jobs, results):
+        if isinstance(res, str):
+            ctx.broken.append({"kind": "correspondence", "name": "float leg: Coq evaluation of mesh script %s failed" % name, "detail": {"error": res}}); continue
+        n, bad = res
+        st["mesh_scripts"] += 1; st["mesh_records_compared"] += n
+        if bad or n != len(want):
+            st["mesh_divergences"] += max(1, len(bad))
+            if nbroken < 3:
+                nbroken += 1
+                inv = {v: k for k, v in FL_MESH_TAGS.items()}
+                def show(r): return None if r is None else "%s %d %s" % (inv.get(r[0], {0: "op-result", 1: "Q"}.get(r[0], r[0])), r[1], " ".join("nan" if x == -1 else "%x" % x for x in r[2]))
+                ctx.broken.append({"kind": "correspondence", "name": "GeometryKernel<Vec3d> queries: library bit patterns vs Flocq model (Geo/FloatModel.v)",
+                                   "detail": {"script": name, "script_lines": scripts[name], "model_records": n, "impl_records": len(want),
+                                              "differing": [{"index": i, "model_says": show(g), "impl_says": show(want[i]) if i < len(want) else None} for i, g in bad[:5]],
+                                              "replay_cmd": "build/bin/san/run_geo --fmesh " + mpath}})
+    ctx.cov["evaluations"] += st["mesh_records_compared"]
+    ctx.cov["distinct_nontrivial"] += st["mesh_scripts"]
+    ctx.cov["float_leg"] = st
+    ctx.cov["samples"].append({"float_case": cases[0], "impl": [l for l in o1.split("\n") if l.startswith("1 ")][9:14]})
+
+def coq_op(t):
+    """kernel script line (absolute operands) -> Coq term of type Kernel.Ops.op"""
+    name, args = t[0][1:], [int(x) for x in t[1:]]
+    if t[0][0] != "@": raise ValueError("only absolute operations: " + " ".join(t))
+    nl = lambda l: "[" + ";".join(str(x) for x in l) + "]"
+    b = lambda x: "true" if x else "false"
+    if any(a < 0 for a in args): return "DelVertex 1000000"          # a negative handle is rejected by both sides
+    one = {"DelV": "DelVertex", "DelE": "DelEdge", "DelF": "DelFace", "DelC": "DelCell"}
+    two = {"SwapV": "SwapV", "SwapE": "SwapE", "SwapF": "SwapF", "SwapC": "SwapC"}
+    flag = {"EnVBU": "EnableVBU", "EnEBU": "EnableEBU", "EnFBU": "EnableFBU", "EnDef": "EnableDeferred", "EnFast": "EnableFast", "Clear": "Clear"}
+    if name == "AddV": return "AddVertex"
+    if name == "AddVs": return "AddVertices %d" % args[0]
+    if name == "AddE": return "AddEdge %d %d %s" % (args[0], args[1], b(args[2]))
+    if name == "AddF": return "AddFace %s %s" % (nl(args[1:]), b(args[0]))
+    if name == "AddFV": return "AddFaceV %s" % nl(args)
+    if name == "AddC": return "AddCell %s %s" % (nl(args[1:]), b(args[0]))
+    if name == "SetE": return "SetEdge %d %d %d" % tuple(args)
+    if name == "SetF": return "SetFace %d %s" % (args[0], nl(args[1:]))
+    if name == "SetC": return "SetCell %d %s" % (args[0], nl(args[1:]))
+    if name in one: return "%s %d" % (one[name], args[0])
+    if name in two: return "%s %d %d" % (two[name], args[0], args[1])
+    if name == "GC": return "CollectGarbage"
+    if name in flag: return "%s %s" % (flag[name], b(args[0]))
+    raise ValueError("unknown operation " + name)
+
 # ------------------------------------------------------------------------------------ C19
 
 def run_pair(impl, model, mode, path, timeout=1500):
@@ -292,6 +507,7 @@ def check_C19(ctx):
     import geogen
     os.makedirs(RUN, exist_ok=True)
     fw.coq_prove(ctx, "Props/Properties_C19.v")
+    import checks; checks.also_prove_file(ctx, "Props/Properties_C19_float.v")
     impl = fw.build_harness(ctx, "san", "run_geo")
     try:
         model = fw.build_driver(ctx, "Extract/ExtractGeo.v", "geodriver.ml", "geodriver")
@@ -361,6 +577,12 @@ def check_C19(ctx):
                                                if any(x.startswith("@AddFV") and len(x.split()) >= 4 for x in l)})
         name0 = next(iter(geogen.mesh_scripts(ctx.seed, True)))
         ctx.cov["samples"].append({"mesh_script": scripts[name0][:14]})
+        # ---- floating-point leg: bit patterns of the library vs the Flocq model evaluated in Coq
+        try:
+            float_leg(ctx, impl)
+        except Exception as ex:
+            import traceback
+            ctx.broken.append({"kind": "correspondence", "name": "float leg failed to run", "detail": traceback.format_exc()[-2500:]})
         # ---- search: when an obligation or the tie is broken and no oracle has produced an input yet
         if ctx.broken and not ctx.violations:
             extra = geogen.search_cases(ctx.seed, 4000 if ctx.quick() else 100000)
@@ -384,21 +606,34 @@ def check_C19(ctx):
         "evaluated by the real library (both the copying and the in-place form, member and free functions) and by the extracted model: "
         "int/unsigned results must be textually identical, float/double results are converted from their bit patterns to exact rationals and "
         "must lie within the stated rounding bound (u per single rounding, gamma_n * sum|terms| for reductions, squares for sqrt) of the model's "
-        "exact rational value; mesh scripts (tets, hexes, prisms, pyramids, planar convex / non-convex / degenerate polygons, integer positions, "
+        "exact rational value; FLOATING-POINT LEG (coverage.float_leg): gen/geogen.py float_cases / float_mesh_scripts (special values: signed zeros, subnormals, "
+        "overflowing / underflowing squares and products, infinities, quiet and signalling NaN patterns; random patterns over the whole exponent range; moderate "
+        "exponents where the accumulation order shows in the last bit; all orders of big + 1 - big; double<->float and int->float/double conversions; "
+        "meshes with arbitrary binary64 positions) are evaluated by the library (run_geo --fvec / --fmesh) and by the Flocq model Geo/FloatModel.v INSIDE Coq "
+        "(vm_compute, one coqc per shard under build/run/fleg/): every result BIT PATTERN must be equal (NaN compares as is-NaN), for double and float, "
+        "all operators incl. norm / normalize / normalized / normalize_cond (sqrt), x/0 and 0/0, and vector/length/barycenters/normal of every live entity; mesh scripts (tets, hexes, prisms, pyramids, planar convex / non-convex / degenerate polygons, integer positions, "
         "then position writes, swaps, deletions, garbage collection) compare vector/length/barycenters/normals of every live entity. "
         "distinct_nontrivial = distinct case lines whose operands are not all zero and (binary kinds) not identical, plus distinct mesh "
         "scripts that contain a face with >= 3 vertices. The impl-side oracle recomputes every result from the defining formula in the harness.")
     ctx.cov["samples"] += [{"theorem": t} for t in fw.theorem_statements("Props/Properties_C19.v", 40)
                            if any(k in t for k in ("C19_l1_norm", "C19_cross_orth", "C19_lt_strict", "C19_normals_opposite_triangle"))][:4]
-    ctx.cov["level_note"] = ("proof for the integer / rational algebra and the geometric formulas; floating point is correspondence-with-tolerance "
-                             "against the exact rational model (not a theorem); C19_l1_norm_refuted and C19_normals_opposite_planar_only_refuted "
+    ctx.cov["level_note"] = ("proof for the integer / rational algebra and the geometric formulas; floating point: Props/Properties_C19_float.v proves, for the "
+                             "IEEE-754 binary64 model (Flocq) that the library matches bit for bit on the generated inputs, correct rounding of every component-wise operation, "
+                             "forward error bounds of dot / sqrnorm / norm / normalized / barycenters in the code's evaluation order and exactness on integer-valued doubles "
+                             "(binary32 is covered by the bit-exact correspondence only; the tolerance comparison against the rational model is kept as a second leg); "
+                             "C19_l1_norm_refuted and C19_normals_opposite_planar_only_refuted "
                              "are refutations of the property text on the faithful model, with C19_l1_norm_partial / "
                              "C19_normals_opposite_triangle / C19_normals_opposite_planar_convex as the strongest true statements")
     ctx.assumptions += [
         "int: no signed overflow (generated operands keep every intermediate result inside 32 bits; overflow is UB in C++ and exact in the model)",
         "division: divisors are non-zero (zero divisors are skipped by both sides); double->int conversions are in range",
-        "floating point: finite inputs of moderate exponent for arithmetic; the rounding bounds are standard (Higham) and are checked, not proved",
-        "sqrt (norm, length, normalized, the final normalisation of normal()) is related to the model through squares only",
+        "floating point, rational leg: finite inputs of moderate exponent; bounds checked against the exact rational value; sqrt related to the model through squares",
+        "floating point, bit-exact leg (trusted base): the harness is built by clang++ -O1 WITHOUT -ffast-math / -march flags for baseline x86-64: scalar SSE2 arithmetic in the "
+        "declared type (no x87 extended intermediates), no fused multiply-add (the baseline ISA has no FMA instruction, so -ffp-contract cannot fuse a*b+c), no reassociation; "
+        "the rounding mode is the default round-to-nearest-even; std::sqrt(double/float) is the correctly rounded sqrtsd/sqrtss resp. glibc sqrt; the sign and payload of NaN "
+        "results are not compared; Flocq's Binary/Bits formalisation of IEEE-754 and Coq's vm_compute are trusted; theorems hold for binary64 (Dops), binary32 is correspondence only",
+        "the real-number theorems of Properties_C19_float.v use the standard-library axioms named by Print Assumptions (ClassicalDedekindReals.sig_forall_dec, sig_not_dec, "
+        "FunctionalExtensionality.functional_extensionality_dep, Classical_Prop.classic)",
         "mixed-scalar arithmetic (e.g. Vec3i * double), apply(), swap(), iterators, and DIM other than 2,3,4 are not exercised",
     ]
 
